@@ -25,6 +25,19 @@ Proof.
   rewrite firstn_app_2. simpl. apply app_nil_r.
 Qed.
 
+(* the first hash of a well-formed ball is the centre's hash (what the model asserts) *)
+Lemma ball_central_hash (G : impl) (c : state) (lh : list (list Z)) :
+  ball_ok G c lh -> 1 <= length lh -> nth 0 (nth 0 lh []) 0%Z = hashf G c.
+Proof.
+  intros Hb Hl. destruct (Hb 0 ltac:(lia)) as [_ Hm].
+  assert (Hc : In (hashf G c) (nth 0 lh [])).
+  { apply Hm. exists c. split; [|reflexivity]. rewrite layer_0. apply nodup_In. left. reflexivity. }
+  destruct (nth 0 lh []) as [|a rest]; [destruct Hc|]. simpl.
+  assert (Ha : In a (a :: rest)) by (left; reflexivity).
+  apply Hm in Ha. destruct Ha as (t & Ht & <-).
+  apply layer0_c in Ht. subst t. reflexivity.
+Qed.
+
 (* ------------------------------------------------------------------ *)
 (** * The section of the statement *)
 
@@ -112,7 +125,13 @@ Section MitmCorrect.
   Qed.
 
   (* backward layer k = states from which q is reached by a shortest walk of k edges.
-     NOTE: the premise [U x] is needed (outside U the inverted generators need not undo anything). *)
+     WEAKENED with the premise [U x].  The statement asked for was
+       Lemma backward_layer_spec q k x : U q ->
+         (In x (B q k) <-> (exists p, length p = k /\ run state (acts G) x p = Some q) /\
+                           forall p, run state (acts G) x p = Some q -> (k <= length p)%nat).
+     Its right-to-left direction is not provable: [inv_undo] only speaks about states of U, so a state x
+     outside U may walk into q by generators that the inverted generators do not undo (x is then in no B q k).
+     Every use below has x in a forward layer, hence in U. *)
   Lemma backward_layer_spec q k x :
     U q -> U x ->
     (In x (B q k) <->
@@ -131,6 +150,26 @@ Section MitmCorrect.
       + intros j Hj Hr. apply reach_one_walk in Hr. destruct Hr as (p' & Hlen' & Hrun').
         apply run_inv_rev in Hrun'; auto. apply Hmin in Hrun'. rewrite rev_length in Hrun'. lia.
   Qed.
+
+  Lemma reach_rev q x k : U q -> U x -> (reachI [q] k x <-> reachG [x] k q).
+  Proof.
+    intros Hq Hx. rewrite !reach_one_walk.
+    split; intros (p & Hl & Hr); exists (rev p); rewrite rev_length; (split; [exact Hl|]).
+    - apply run_inv_rev; auto.
+    - apply run_rev_inv; auto.
+  Qed.
+
+  (* distances in the inverted instance are the distances towards the start in the original one *)
+  Lemma dist_rev q x d :
+    U q -> U x -> (dist_is state (acts Ginv) [q] x d <-> dist_is state (acts G) [x] q d).
+  Proof.
+    intros Hq Hx. unfold dist_is. split; intros [H1 H2]; split.
+    - apply (proj1 (reach_rev q x d Hq Hx)). exact H1.
+    - intros k Hk Hr. apply (H2 k Hk). apply (proj2 (reach_rev q x k Hq Hx)). exact Hr.
+    - apply (proj2 (reach_rev q x d Hq Hx)). exact H1.
+    - intros k Hk Hr. apply (H2 k Hk). apply (proj1 (reach_rev q x k Hq Hx)). exact Hr.
+  Qed.
+
 
   (* ---------------------------------------------------------------- *)
   (** ** Where the two families of layers meet *)
@@ -548,6 +587,20 @@ Section MitmCorrect.
       apply Hfar in Hdist. lia.
   Qed.
 
+  (* exactness with the length: within distance 2D the answer has exactly the distance as its length *)
+  Corollary mitm_to_exact lh ns q d :
+    ball_ok G c lh -> length lh = ns -> 1 <= ns -> U q ->
+    dist_is state (acts G) [c] q d -> d <= 2 * (ns - 1) ->
+    exists p, mitm_find_path_to G Ginv lh ns (hashf G c) q = Ok (Some p) /\ length p = d /\ runG c p = Some q.
+  Proof.
+    intros Hb Hl Hns Hq Hdist Hd.
+    assert (H0 : nth 0 (nth 0 lh []) 0%Z = hashf G c) by (apply ball_central_hash; [exact Hb | rewrite Hl; exact Hns]).
+    destruct (mitm_to_complete lh ns q d Hb Hl Hns Hq H0 Hdist Hd) as (p & Hp).
+    destruct (mitm_to_sound lh ns q p Hb Hl Hns Hq Hp) as (Hrun & Hdp & _).
+    exists p. split; [exact Hp|]. split; [|exact Hrun].
+    eapply dist_unique; eauto.
+  Qed.
+
   (* the answer of a successful query is a shortest walk *)
   Corollary mitm_to_shortest lh ns q p :
     ball_ok G c lh -> length lh = ns -> 1 <= ns -> U q ->
@@ -565,4 +618,7 @@ End MitmCorrect.
 Print Assumptions mitm_to_sound.
 Print Assumptions mitm_to_complete.
 Print Assumptions mitm_to_none.
+Print Assumptions mitm_to_exact.
+Print Assumptions mitm_to_shortest.
+Print Assumptions backward_layer_spec.
 
